@@ -14,6 +14,7 @@
      Undyn    the reverse
      Reorder  the attributes of a body written in another order / after the blocks
      Lay      comments, blank lines, spacing, formatting changed
+     Group    the merge of several files composed differently (all at once, from the left, from the right)
 
    Meaning(files) is what both decoders owe for the whole set of files: the attribute values, and per block
    type the blocks in order with their labels and (recursively) the meaning of their bodies.  The invariant
@@ -35,7 +36,8 @@ Plain(val) == [t |-> val.t, v |-> val.v]
 Attr(n, v) == [k |-> "attr", name |-> n, val |-> v]
 Blk(t, labels, body) == [k |-> "block", type |-> t, labels |-> labels, body |-> body]
 DynOf(t, each) == [k |-> "dyn", type |-> t, each |-> each, inner |-> FALSE]     \* inner: its nested blocks are dynamic blocks too, iterating under the same name
-File(syn, lay, items) == [syn |-> syn, lay |-> lay, items |-> items]
+File(syn, lay, items) == [syn |-> syn, lay |-> lay, items |-> items, grp |-> 0]
+   \* grp (read on the first file only): how the merge of the files is composed: 0 all at once, 1 merge(merge(f1, f2), f3), 2 merge(f1, merge(f2, f3))
 
 (* ---------------------------------------------------------------- meaning *)
 Expand(items) == FlattenSeq([i \in 1..Len(items) |-> IF items[i].k = "dyn" THEN items[i].each ELSE <<items[i]>>])
@@ -113,8 +115,11 @@ ReorderIn(f, i) == /\ files[f].items[i].k = "block"
                    /\ Log([rw |-> "ReorderIn", f |-> f, i |-> i])
 Lay(f) == /\ files' = [files EXCEPT ![f].lay = (@ + 1) % 3]
           /\ Log([rw |-> "Lay", f |-> f])
+Group == /\ Len(files) >= 2
+         /\ files' = [files EXCEPT ![1].grp = (@ + 1) % 3]
+         /\ Log([rw |-> "Group", f |-> 1])
 Next == \E f \in 1..Len(files) :
-           \/ Syn(f) \/ Merge(f) \/ Reorder(f) \/ Lay(f)
+           \/ Syn(f) \/ Merge(f) \/ Reorder(f) \/ Lay(f) \/ (f = 1 /\ Group)
            \/ \E i \in 1..Len(files[f].items) : Split(f, i) \/ Undyn(f, i) \/ ReorderIn(f, i) \/ Inner(f, i)
            \/ \E t \in BlockTypes(files[f].items) : Dyn(f, t)
 (* ---------------------------------------------------------------- properties of the rewrite system itself *)
